@@ -151,14 +151,17 @@ func c06Concurrent(tier string) []fw.Scenario {
 		nUnsub int
 		nWait  int
 		name   string
+		word2  []h.Ev // a second producer (destinations that serialize their producers only)
 	}
 	shapes := []shape{
-		{ints(1, 2, 3), 1, 1, "3values/1unsub/1wait"},
-		{ints(1, 2), 2, 1, "2values/2unsub/1wait"},
-		{ints(1, 2), 1, 2, "2values/1unsub/2wait"},
-		{wordC(1, 2), 0, 1, "self-complete/1wait"},
-		{wordE(1), 0, 2, "self-error/2wait"},
-		{wordC(1), 1, 1, "self-complete/1unsub/1wait"},
+		{ints(1, 2, 3), 1, 1, "3values/1unsub/1wait", nil},
+		{ints(1, 2), 2, 1, "2values/2unsub/1wait", nil},
+		{ints(1, 2), 1, 2, "2values/1unsub/2wait", nil},
+		{wordC(1, 2), 0, 1, "self-complete/1wait", nil},
+		{wordE(1), 0, 2, "self-error/2wait", nil},
+		{wordC(1), 1, 1, "self-complete/1unsub/1wait", nil},
+		{wordC(1), 0, 1, "two-producers-both-terminate/1wait", wordE()},
+		{wordE(1), 0, 1, "two-producers-error-and-complete/1wait", wordC()},
 	}
 	var scns []fw.Scenario
 	for _, p := range c06Progs() {
@@ -168,6 +171,9 @@ func c06Concurrent(tier string) []fw.Scenario {
 			b := bound
 			if sh.nUnsub+sh.nWait > 2 || p.name == "ObserveOn(1)" {
 				b = bound - 1
+			}
+			if sh.word2 != nil && p.mode == h.Unsafe && p.name != "Serialize|Scan" {
+				continue // two goroutines may only call a destination that serializes them
 			}
 			scns = append(scns, fw.Scenario{ID: "C06/conc/" + p.name + "/" + sh.name, Group: p.name, Run: func(c *fw.Ctx) {
 				c.Explore(fw.Case{Name: sh.name, Bound: b, Sample: true, Opts: vrt.Options{DelayBounded: p.name == "ObserveOn(1)"}, Make: func() fw.Instance {
@@ -185,6 +191,9 @@ func c06Concurrent(tier string) []fw.Scenario {
 								push.Emit(e)
 							}
 						})
+						if sh.word2 != nil {
+							vrt.GoNamed("producer2", func() { play(push, sh.word2) })
+						}
 						for i := 0; i < sh.nUnsub; i++ {
 							vrt.GoNamed("unsubscriber", func() {
 								sub0.Unsubscribe()
@@ -256,7 +265,7 @@ func c06Concurrent(tier string) []fw.Scenario {
 						if selfEnds && sh.nUnsub == 0 {
 							var termOut uint64
 							for _, en := range rec.Log {
-								if en.K != h.N {
+								if en.K != h.N && termOut == 0 {
 									termOut = en.Out
 								}
 							}
